@@ -243,6 +243,11 @@ def run(repo, R):
             check_asym_wrapper(repo, _wf, R)
         else:
             check_wrapper_dispatch(repo, _wf, R, "DISPATCH", ignore_kw=("tol_screen",))
+    R.rule("NOSCREEN", "without a tolerance nothing is screened: `tol_screen` defaults to None in the public wrapper and in the kernel")
+    from ..flow import check_default_is
+    for q_ in ('gbasis.integrals.overlap.overlap_integral', OVERLAP):
+        check_default_is(repo.func(q_), R, "NOSCREEN", "tol_screen", None,
+                         "a plain overlap_integral(basis) then zeroes shell pairs beyond the cutoff, whose true overlaps exceed 1e-8 for high angular momenta")
     R.rule("MPT", "every returned block of the overlap kernel is derived from the recursion; the only shortcut is the documented screening")
     from .mpt import must_pass_through
     must_pass_through(repo, R, repo.func(OVERLAP), allowed_shortcuts=("is_integral_screened",), none_scope=("tol_screen",))
@@ -305,6 +310,13 @@ def run(repo, R):
     R.check(g is repo.func(OVERLAP), "SIBLING", "integrals.overlap_asymm.OverlapAsymmetric", "construct_array_contraction is Overlap's",
             "OverlapAsymmetric no longer reuses Overlap.construct_array_contraction: the two-basis overlap is a different computation from the union's block",
             where=g.where())
+    # the property is stated for Cartesian, spherical and mixed bases and with a transformation: the assembly of this operator's base
+    # class (norm once per index, own Cartesian->spherical matrix, segment-major blocks, transformation on every index) is part of it
+    from ..report import compose as _compose
+    from . import c09 as _c09
+    _bases = ('base_two_symm', 'base_two_asymm')
+    _compose(R, "C09", _c09.run, repo, keep=lambda fd: any(b_ in (fd.where or "") or b_ in fd.site for b_ in _bases) or "spherical.py" in (fd.where or ""),
+             why="results for spherical / mixed / transformed bases are assembled by " + ", ".join(_bases))
     R.assumptions += ["Obara & Saika 1986 / Helgaker 9.3 recurrences as stated in DESIGN.md 2.2", "assembly contract A (C09) places and normalises the blocks",
                       "sympy integrate for the Gaussian moment integrals"]
     return ("STENCIL + AXTYPE on the overlap kernel chain: the label-carrying symbolic evaluator runs Overlap.construct_array_contraction "
